@@ -10,7 +10,9 @@ import (
 	"fmt"
 
 	"github.com/sarchlab/akita/v5/hooking"
+	"github.com/sarchlab/akita/v5/messaging"
 	"github.com/sarchlab/akita/v5/modeling"
+	"github.com/sarchlab/akita/v5/noc/directconnection"
 	"github.com/sarchlab/akita/v5/timing"
 
 	"verifharness/internal/hx"
@@ -20,10 +22,24 @@ import (
 // K: 0 ScheduleWakeAt(V)  1 ScheduleWakeNow  2 NotifyRecv  3 NotifyPortFree
 //
 //	4 ScheduleWakeAt(now+V)  5 ScheduleWakeAt(now-V) (saturating at 0)
+//
+// With a network (input.Net): 6 component Src sends a message from its port to
+// component Tgt's port (if CanSend), 7 component Src retrieves one incoming
+// message.  Inside a processor script Src is the component itself.
 type req struct {
 	Tgt int    `json:"tgt"`
 	K   int    `json:"k"`
 	V   uint64 `json:"v,omitempty"`
+	Src int    `json:"src,omitempty"`
+}
+
+// netIn adds real ports and one real noc/directconnection (a ticking component
+// of frequency F) between the event-driven components: NotifyRecv and
+// NotifyPortFree then come from real deliveries and retrievals.
+type netIn struct {
+	F      uint64 `json:"f"`
+	InCap  int    `json:"in_cap"`
+	OutCap int    `json:"out_cap"`
 }
 
 type compIn struct {
@@ -39,6 +55,7 @@ type envIn struct {
 type input struct {
 	Comps []compIn `json:"comps"`
 	Env   []envIn  `json:"env"`
+	Net   *netIn   `json:"net,omitempty"`
 }
 
 type evRec struct {
@@ -67,6 +84,8 @@ type compRT struct {
 	hist []*evRec
 	cur  *evRec
 	w    *world
+	idx  int
+	port messaging.Port
 }
 
 type world struct {
@@ -103,13 +122,62 @@ func (p *processor) Process(c *edc, now timing.VTimeInPicoSec) bool {
 	c.State.Runs++
 	if k < len(p.rt.in.Runs) {
 		for _, q := range p.rt.in.Runs[k] {
+			q.Src = p.rt.idx
 			p.rt.w.do(q)
 		}
 	}
 	return true
 }
 
+type netMsg struct{ messaging.MsgMeta }
+
+// owner is what the real ports see as their component: it records the
+// notification in the component's history and passes it on.
+type owner struct {
+	*edc
+	c *compRT
+}
+
+func (o *owner) notify(k int, f func()) {
+	c := o.c
+	r := &evRec{Kind: "req", K: k, T: uint64(c.w.eng.CurrentTime()), Obs: "drop"}
+	c.hist = append(c.hist, r)
+	saved := c.cur
+	c.cur = r
+	f()
+	c.cur = saved
+}
+
+func (o *owner) NotifyRecv(p messaging.Port)     { o.notify(2, func() { o.edc.NotifyRecv(p) }) }
+func (o *owner) NotifyPortFree(p messaging.Port) { o.notify(3, func() { o.edc.NotifyPortFree(p) }) }
+
+func (w *world) buildNet() {
+	n := w.in.Net
+	conn := directconnection.MakeBuilder().WithRegistrar(modeling.NewStandaloneRegistrar(w.eng)).
+		WithSpec(directconnection.Spec{Freq: timing.Freq(n.F)}).Build("Conn")
+	for _, k := range w.comps {
+		k.port = messaging.NewPort(&owner{edc: k.c, c: k}, n.InCap, n.OutCap, k.name+".Port")
+		conn.PlugIn(k.port)
+	}
+}
+
 func (w *world) do(q req) {
+	if q.K >= 6 {
+		if w.in.Net == nil || q.Src < 0 || q.Src >= len(w.comps) {
+			return
+		}
+		src := w.comps[q.Src]
+		if q.K == 7 {
+			src.port.RetrieveIncoming()
+			return
+		}
+		if q.Tgt < 0 || q.Tgt >= len(w.comps) || q.Tgt == q.Src || !src.port.CanSend() {
+			return
+		}
+		src.port.Send(netMsg{messaging.MsgMeta{ID: timing.GetIDGenerator().Generate(),
+			Src: src.port.AsRemote(), Dst: w.comps[q.Tgt].port.AsRemote()}})
+		return
+	}
 	if q.Tgt < 0 || q.Tgt >= len(w.comps) {
 		return
 	}
@@ -195,13 +263,16 @@ func execute(in input) obsOut {
 	w := &world{eng: timing.NewSerialEngine(), in: in}
 	w.eng.RegisterHandler("env", &envHandler{w})
 	for i, ci := range in.Comps {
-		rt := &compRT{name: fmt.Sprintf("ED%d", i), in: ci, w: w}
+		rt := &compRT{name: fmt.Sprintf("ED%d", i), in: ci, w: w, idx: i}
 		rt.c = modeling.NewEventDrivenBuilder[spec, state, modeling.None]().
 			WithEngine(&sched{w: w, c: rt}).
 			WithSpec(spec{Index: i}).
 			WithProcessor(&processor{rt}).
 			Build(rt.name)
 		w.comps = append(w.comps, rt)
+	}
+	if in.Net != nil {
+		w.buildNet()
 	}
 	w.eng.AcceptHook(&hook{w})
 	for i, e := range in.Env {
@@ -309,6 +380,7 @@ func run(raw json.RawMessage) (hx.Case, error) {
 	tag(spurious > 0, "superseded-timer-still-queued")
 	tag(!o.Completed, "run-aborted(request-in-the-past)")
 	tag(len(in.Comps) > 1, "multi-component")
+	tag(in.Net != nil, "real-ports+directconnection")
 	tag(runs == 0, "no-run")
 	// non-trivial: a request earlier than the pending wake-up superseded it, the
 	// guard dropped a request, and the processor ran at least three times
@@ -320,8 +392,18 @@ func genScript(r *hx.Rand, big bool) input {
 	var in input
 	nc := r.Range(1, 3)
 	scale := []uint64{10, 1000, 1_000_000, 1 << 40}[r.Pick(4, 3, 1, 1)]
+	net := r.Chance(2, 5)
+	if net {
+		nc = r.Range(2, 3)
+		in.Net = &netIn{F: []uint64{1_000_000_000, 1_000_000_000, 700_000_000, 100_000_000_000}[r.Intn(4)],
+			InCap: r.Range(1, 2), OutCap: r.Range(1, 3)}
+	}
 	mkReq := func(self int, base uint64) req {
-		q := req{Tgt: r.Intn(nc)}
+		q := req{Tgt: r.Intn(nc), Src: r.Intn(nc)}
+		if net && r.Chance(1, 2) {
+			q.K = 6 + r.Pick(3, 2)
+			return q
+		}
 		if r.Chance(1, 2) && self >= 0 {
 			q.Tgt = self
 		}
@@ -385,7 +467,7 @@ func genScript(r *hx.Rand, big bool) input {
 
 func directed() []input {
 	one := func(env ...envIn) input { return input{Comps: []compIn{{}}, Env: env} }
-	wa := func(v uint64) req { return req{0, 0, v} }
+	wa := func(v uint64) req { return req{Tgt: 0, K: 0, V: v} }
 	top := ^uint64(0)
 	return []input{
 		// later, equal, earlier, repeated requests
@@ -393,22 +475,28 @@ func directed() []input {
 		// earlier request supersedes; the old timer still fires; a request made between the two runs
 		one(envIn{T: 0, Reqs: []req{wa(100), wa(50)}}, envIn{T: 60, Reqs: []req{wa(300)}}, envIn{T: 120, Reqs: []req{wa(200), wa(400)}}),
 		// notification with a later wake-up pending, with a same-instant wake-up pending, twice
-		one(envIn{T: 5, Reqs: []req{wa(9), {0, 2, 0}, {0, 3, 0}, {0, 1, 0}}}, envIn{T: 9, Reqs: []req{{0, 2, 0}}}, envIn{T: 9, Sec: true, Reqs: []req{{0, 3, 0}}}),
+		one(envIn{T: 5, Reqs: []req{wa(9), {Tgt: 0, K: 2, V: 0}, {Tgt: 0, K: 3, V: 0}, {Tgt: 0, K: 1, V: 0}}}, envIn{T: 9, Reqs: []req{{Tgt: 0, K: 2, V: 0}}}, envIn{T: 9, Sec: true, Reqs: []req{{Tgt: 0, K: 3, V: 0}}}),
 		// the processor re-arms itself: now, now+1, and from inside the run a notification
-		{Comps: []compIn{{Runs: [][]req{{{0, 4, 0}}, {{0, 4, 1}, {0, 2, 0}}, {{0, 4, 7}, {0, 4, 3}}, nil, {{0, 1, 0}}}}}, Env: []envIn{{T: 3, Reqs: []req{wa(3)}}}},
+		{Comps: []compIn{{Runs: [][]req{{{Tgt: 0, K: 4, V: 0}}, {{Tgt: 0, K: 4, V: 1}, {Tgt: 0, K: 2, V: 0}}, {{Tgt: 0, K: 4, V: 7}, {Tgt: 0, K: 4, V: 3}}, nil, {{Tgt: 0, K: 1, V: 0}}}}}, Env: []envIn{{T: 3, Reqs: []req{wa(3)}}}},
 		// MaxUint64 is the "nothing pending" value: a wake-up at MaxUint64 is queued but never deduplicated
 		one(envIn{T: 1, Reqs: []req{wa(top), wa(top), wa(top - 1), wa(top)}}),
 		// request in the past: engine panic, guard already overwritten
 		one(envIn{T: 10, Reqs: []req{wa(20), wa(5)}}),
-		one(envIn{T: 10, Reqs: []req{{0, 5, 1}}}),
+		one(envIn{T: 10, Reqs: []req{{Tgt: 0, K: 5, V: 1}}}),
+		// real ports and a real 1 GHz direct connection: request / reply with retrievals, capacity-1 buffers
+		{Net: &netIn{F: 1_000_000_000, InCap: 1, OutCap: 1},
+			Comps: []compIn{
+				{Runs: [][]req{{{Tgt: 1, K: 6}}, {{K: 7}, {Tgt: 1, K: 6}}, {{K: 7}}, {{K: 7}, {Tgt: 1, K: 6}}, {{K: 7}}}},
+				{Runs: [][]req{{{K: 7}, {Tgt: 0, K: 6}}, {{K: 7}, {Tgt: 0, K: 6}, {Tgt: 1, K: 4, V: 1500}}, {{K: 7}}, {{K: 7}, {Tgt: 0, K: 6}}}}},
+			Env: []envIn{{T: 1, Reqs: []req{{Tgt: 1, K: 6, Src: 0}, {Tgt: 0, K: 1}}}, {T: 7000, Reqs: []req{{Tgt: 0, K: 6, Src: 1}, {Tgt: 1, K: 6, Src: 0}}}}},
 		// two components notifying each other from their processors
-		{Comps: []compIn{{Runs: [][]req{{{1, 2, 0}}, {{1, 0, 40}, {1, 0, 30}}, nil}}, {Runs: [][]req{{{0, 3, 0}, {0, 4, 5}}, {{0, 2, 0}}, nil, nil}}},
-			Env: []envIn{{T: 2, Reqs: []req{{0, 2, 0}}}, {T: 30, Sec: true, Reqs: []req{{1, 1, 0}, {0, 0, 30}}}}},
+		{Comps: []compIn{{Runs: [][]req{{{Tgt: 1, K: 2, V: 0}}, {{Tgt: 1, K: 0, V: 40}, {Tgt: 1, K: 0, V: 30}}, nil}}, {Runs: [][]req{{{Tgt: 0, K: 3, V: 0}, {Tgt: 0, K: 4, V: 5}}, {{Tgt: 0, K: 2, V: 0}}, nil, nil}}},
+			Env: []envIn{{T: 2, Reqs: []req{{Tgt: 0, K: 2, V: 0}}}, {T: 30, Sec: true, Reqs: []req{{Tgt: 1, K: 1, V: 0}, {Tgt: 0, K: 0, V: 30}}}}},
 	}
 }
 
 func gen(r *hx.Rand, tier string) []json.RawMessage {
-	n, nbig := 600, 40
+	n, nbig := 450, 30
 	if tier == "thorough" {
 		n, nbig = 8000, 800
 	}
@@ -466,7 +554,9 @@ func init() {
 			"later or same-instant wake-up pending, self re-arming processor, wake-up at MaxUint64, request in the past, two components " +
 			"notifying each other) plus random scripts: 1-3 EventDrivenComponents whose k-th processor run issues 0+ requests " +
 			"(absolute time, now+d with d in {0,1,scale,random}, WakeNow, NotifyRecv, NotifyPortFree) on itself or others, and 1-30 " +
-			"primary/secondary environment events issuing 1-5 requests (1/4 repeated), time scale 10/10^3/10^6/2^40 ps; 1/25 scripts " +
+			"primary/secondary environment events issuing 1-5 requests; 2/5 of the scripts add real messaging ports (capacity 1-3) " +
+			"and a real noc/directconnection (0.7/1/100 GHz) so that NotifyRecv/NotifyPortFree come from real sends, deliveries and " +
+			"retrievals; environment events issue 1-5 requests (1/4 repeated), time scale 10/10^3/10^6/2^40 ps; 1/25 scripts " +
 			"end with a request in the past. Non-trivial: an earlier request superseded a pending wake-up, the guard dropped a " +
 			"request and the processor ran >= 3 times. Distinct = distinct input hash.",
 		Gen: gen, Run: run, Shrink: shrink,
